@@ -316,7 +316,16 @@ def locate_failure(relfile, line):
         if m:
             name = m.group(1)
     mod = relfile[:-2].replace('/', '.')
-    return '%s.%s (%s:%d)' % (mod, name, relfile, line)
+    extra = ''
+    if name == 'model_transcribes_current_source':
+        # the generated file names the source lines the model transcribes that are no longer found
+        try:
+            for l in open(os.path.join(COQ, 'Gen', 'SourceGuards.v')).read().split('\n')[:3]:
+                if 'guards that are false' in l:
+                    extra = ' - ' + l.strip('(* )')
+        except OSError:
+            pass
+    return '%s.%s (%s:%d)%s' % (mod, name, relfile, line, extra)
 
 
 def parse_assumptions(src, out):
